@@ -183,11 +183,19 @@ def _run(pid, prop, tier, seed, replay, scale, only, scratch, t0):
     extra = {}
     infra = []
     if getattr(prop, "NEEDS_RUST", False):
-        so, err = build_rust(scratch, "release")
+        profile = "release"
+        if replay:
+            try:
+                profile = json.load(open(replay)).get("rust_profile", "release")
+            except Exception:
+                pass
+        so, err = build_rust(scratch, profile)
         if so is None:
             print(f"INCONCLUSIVE property={pid} reason=rust build failed\n{err}")
             return 2
         extra["VERIF_RUST_SO"] = so
+        if profile == "debug":
+            extra["VERIF_RUST_PROFILE"] = "debug"
     env = worker_env(extra)
 
     if replay:
@@ -337,6 +345,7 @@ def fold(pid, prop, tier, seed, recs, infra, t0, partial=False):
             json.dump({"property": pid, "stratum": r["s"], "index": r["i"], "seed": seed, "tier": tier,
                        "class": cls, "violations": r["o"]["violations"], "events": r["o"]["events"],
                        "mechanism_events": r["o"].get("mech", []), "case_repr": r.get("repr"),
+                       "rust_profile": "debug" if r.get("tag") == "dev:" else "release",
                        "case_pickle_b64": r.get("case")}, fh, indent=1)
         lines.append(f"VIOLATION property={pid} replay={path}")
         print(f"  class={cls} stratum={r.get('tag','')}{r['s']} index={r['i']}: {r['o']['violations'][0][1][:400]}")
